@@ -39,6 +39,13 @@ def shards(tier, seed):
              dict(n=4, k=1, T=6, labels=["x"], segs=FAR, sym=True), dict(n=5, k=1, T=6, labels=["x"], segs=FAR, sym=True)]
     if tier == "thorough":
         sweep += [dict(n=4, k=1, T=2, labels=["x", "y"]), dict(n=6, k=1, T=1, labels=["x", "y"], sym=True)]
+    # two annotators at sizes far beyond the subset DP (up to 2 x 170 units, > 20 000 candidates: every buffer growth),
+    # decided by an assignment-problem oracle
+    big = [[100, 100], [150, 150], [120, 170]] if tier == "quick" else [[100, 100], [150, 150], [120, 170], [200, 200], [99, 230]]
+    for sizes in big:
+        tasks.append({"assignment": {"block": sizes}})
+    for fam in ("fam_staircase", "fam_interleaved", "fam_identical"):
+        tasks.append({"assignment": {"family": [fam, 2, 60]}})
     for u in sweep:
         for i in range(0, len(DE_SWEEP), 2):
             tasks.append({"universe": u, "shard": 0, "nshards": 1, "sweep": DE_SWEEP[i:i + 2]})
@@ -59,6 +66,8 @@ def run(task):
     res = {"evaluations": 0, "transitions": 0, "traces": 0, "state_set": [], "nontrivial": [], "outcomes": [],
            "samples": [], "violations": [], "extra": {"library_exceptions": 0}}
     full = task.get("full", False)
+    if "assignment" in task:
+        return run_assignment(task["assignment"], res)
     for spec in A.iter_task_specs(task):
         labels = A.spec_label_set(spec)
         n = len(spec["annotators"])
@@ -108,7 +117,48 @@ def run(task):
     return res
 
 
+def assignment_spec(a):
+    from .. import universe
+    if "block" in a:
+        return universe.fam_block(a["block"], spread=3.0)  # all mutually close, but with distinct pair costs
+    f, n, q = a["family"]
+    return getattr(universe, f)(n, q)
+
+
+def run_assignment(a, res):
+    from ..oracles import optimum_two_annotators
+    spec = assignment_spec(a)
+    for recipe in ({"k": "pos", "de": 1.0}, {"k": "comb", "a": 1.0, "b": 1.0, "de": 0.7}):
+        opt = optimum_two_annotators(spec, recipe)
+        bes = backends() if "family" in a else backends()[:1]
+        for backend in bes:
+            obs = A.eval_case(spec, recipe, backend, KIND)
+            res["evaluations"] += 1
+            res["transitions"] += 1
+            key = h(["assignment", a, recipe, backend])
+            res["state_set"].append(key)
+            if not obs["ok"]:
+                res["extra"]["library_exceptions"] += 1
+                continue
+            res["traces"] += 1
+            res["outcomes"].append(round(opt, 5))
+            msg = judge(spec, recipe, backend, obs, opt)
+            if msg:
+                res["violations"].append({"msg": msg + " [2 annotators, assignment-problem oracle]",
+                                          "case": {"assignment": a, "recipe": recipe, "backend": backend}})
+            else:
+                res["nontrivial"].append(key)
+    return res
+
+
 def replay(case):
+    if "assignment" in case:
+        from ..oracles import optimum_two_annotators
+        spec = assignment_spec(case["assignment"])
+        opt = optimum_two_annotators(spec, case["recipe"])
+        obs = A.eval_case(spec, case["recipe"], case["backend"], KIND)
+        msg = judge(spec, case["recipe"], case["backend"], obs, opt)
+        return [{"msg": msg, "case": case}] if msg else []
     opt = optimum(case["spec"], case["recipe"], cover=COVER)
     obs = A.eval_case(case["spec"], case["recipe"], case["backend"], KIND, warm=case.get("warm"))
     msg = judge(case["spec"], case["recipe"], case["backend"], obs, opt)
